@@ -238,6 +238,7 @@ def summarize(prop, tier, seed, lemmas, tasks, results, wall):
     paths = 0
     by_clause = {}
     pathsigs = set()
+    allkeys = []
     for r in results:
         solver_s += r["solver_s"]
         queries += r["queries"]
@@ -271,6 +272,7 @@ def summarize(prop, tier, seed, lemmas, tasks, results, wall):
             f["_key"] = key
             f["_cell"] = r["cell"]
             f["_lemma"] = r["lemma"]
+            allkeys.append(f)
             if f["native"] in ("confirmed",):
                 hit = None
                 for k in kn:
@@ -303,7 +305,7 @@ def summarize(prop, tier, seed, lemmas, tasks, results, wall):
            "n_und": n_und, "violations": violations, "spurious": spurious, "errors": errors, "undecided": undecided,
            "samples": samples, "solver_s": solver_s, "queries": queries, "paths": paths, "cells": len(results),
            "by_clause": by_clause, "known": kn, "lemmas": [l.name for l in lemmas], "bounded_obl": bounded_obl,
-           "bounded_dis": bounded_dis, "distinct_paths": len(pathsigs), "tasks": len(tasks)}
+           "bounded_dis": bounded_dis, "distinct_paths": len(pathsigs), "tasks": len(tasks), "allfail": allkeys}
     return out
 
 
@@ -446,8 +448,8 @@ def main(argv=None):
     s = run_property(a.prop, tier, seed, jobs=a.jobs, only=a.only)
     if a.dump:
         with open(a.dump, "w") as f:
-            for v in s["violations"]:
-                f.write(json.dumps({"key": v["_key"], "lines": v.get("info", {}).get("lines"), "holes": v["holes"]}) + "\n")
+            for v in s["allfail"]:
+                f.write(json.dumps({"key": v["_key"], "lines": (v.get("info") or {}).get("lines"), "native": v.get("native")}) + "\n")
     code = report(s, manifest_level(a.prop))
     sys.stdout.flush()
     os._exit(code)
